@@ -42,6 +42,8 @@ pub struct Case {
     pub goaway_at: usize,
     /// the requests arrive in descending stream-ID order (the h3::quic traits allow any order)
     pub reversed: bool,
+    /// the peer sends its GOAWAY twice with the same identifier (legal: identifiers must not INCREASE)
+    pub goaway_twice: bool,
 }
 
 #[derive(Debug, Clone, Default, PartialEq, Eq)]
@@ -159,6 +161,9 @@ pub fn execute(case: &Case, seed: u64) -> Outcome {
             for i in 0..=case.ends.len() {
                 if i == case.goaway_at {
                     net.raw_write(CLIENT, CLIENT_CTRL, &rf::frame(rf::GOAWAY, &[0x00]));
+                    if case.goaway_twice {
+                        net.raw_write(CLIENT, CLIENT_CTRL, &rf::frame(rf::GOAWAY, &[0x00]));
+                    }
                     yield_now().await;
                 }
                 if i == case.ends.len() {
@@ -222,8 +227,86 @@ pub fn execute(case: &Case, seed: u64) -> Outcome {
     o
 }
 
+/// Scale boundary: `n` requests are handed out and held; after the peer's GOAWAY all of them are dropped in one
+/// burst, i.e. between two polls of accept(). accept() must then answer "no more requests" (a bounded queue of
+/// end-of-request notifications would lose some). One deterministic execution per n.
+pub fn burst_run(n: usize) -> (Vec<String>, bool, usize, Vec<(String, String)>) {
+    fastrand::seed(1);
+    let net = Net::new(NetCfg::default());
+    let mut ex = Exec::new();
+    let accepts: Shared<Vec<String>> = shared(Vec::new());
+    let pending = shared(false);
+    let started = shared(0usize);
+    let release = shared(false);
+    {
+        let (net2, sp, accepts, pending, started, release) = (net.clone(), ex.spawner(), accepts.clone(), pending.clone(), started.clone(), release.clone());
+        ex.spawn("accept-loop", async move {
+            let mut b = h3::server::builder();
+            b.send_grease(false);
+            let mut conn: SrvConn = match b.build(SimConn::new(&net2, SERVER)).await {
+                Ok(c) => c,
+                Err(_) => return,
+            };
+            loop {
+                *pending.borrow_mut() = true;
+                let r = conn.accept().await;
+                *pending.borrow_mut() = false;
+                match r {
+                    Ok(Some(resolver)) => {
+                        *started.borrow_mut() += 1;
+                        let release = release.clone();
+                        sp.spawn("holder", async move {
+                            while !*release.borrow() {
+                                yield_now().await;
+                            }
+                            drop(resolver);
+                        });
+                    }
+                    Ok(None) => {
+                        accepts.borrow_mut().push("none".into());
+                        break;
+                    }
+                    Err(e) => {
+                        accepts.borrow_mut().push(conn_class(&e));
+                        break;
+                    }
+                }
+            }
+            std::future::pending::<()>().await;
+            drop(conn);
+        });
+    }
+    {
+        let (net, started, release) = (net.clone(), started.clone(), release.clone());
+        ex.spawn("script", async move {
+            net.raw_open(CLIENT_CTRL);
+            net.raw_write(CLIENT, CLIENT_CTRL, &control_preamble(&[]));
+            for i in 0..n as u64 {
+                net.raw_open(i * 4);
+                net.raw_write(CLIENT, i * 4, &rf::frame(rf::HEADERS, REQ_SECTION));
+                net.raw_fin(CLIENT, i * 4);
+            }
+            let mut spins = 0;
+            while *started.borrow() < n && spins < 100 * n + 1000 {
+                spins += 1;
+                yield_now().await;
+            }
+            net.raw_write(CLIENT, CLIENT_CTRL, &rf::frame(rf::GOAWAY, &[0x00]));
+            for _ in 0..8 {
+                yield_now().await;
+            }
+            *release.borrow_mut() = true;
+        });
+    }
+    let q = ex.run(400 * n + 20_000, |_| {});
+    let a = accepts.borrow().clone();
+    let p = *pending.borrow();
+    let st = *started.borrow();
+    (a, p, st, q.panics)
+}
+
 pub fn judge(case: &Case, o: &Outcome) -> Vec<(String, String)> {
-    let ctx = format!("requests (by stream id / 4) ending {:?}, arriving in {} id order, peer GOAWAY before arrival #{}", case.ends, if case.reversed { "descending" } else { "ascending" }, case.goaway_at);
+    let ctx = format!("requests (by stream id / 4) ending {:?}, arriving in {} id order, peer GOAWAY{} before arrival #{}", case.ends, if case.reversed { "descending" } else { "ascending" }, if case.goaway_twice { " (sent twice)" } else { "" }, case.goaway_at);
     let mut out = Vec::new();
     for (t, p) in &o.panics {
         out.push((format!("C09:panic@{}", explore::panics::short_loc(p)), format!("{ctx}: task {t} panicked: {p}")));
@@ -270,7 +353,7 @@ pub fn run(args: &Args) -> i32 {
     let mut rep = Report::new("C09", args.tier, args.seed, "model_checking");
     rep.exhaustive = true;
     rep.rule = format!(
-        "0..{n} requests, each ending in one of {{normal finish, resolver dropped before resolve_request, FIN before HEADERS, RESET before HEADERS, RESET after HEADERS, malformed headers, oversized headers, split into halves dropped send-first / recv-first, handler still running}} (all {}^k assignments), the peer's GOAWAY injected before each request and after the last, requests arriving in ascending and in descending stream-ID order, every execution with <= {bound} scheduling deviations among the accept loop, the handler tasks and the script. Oracle at quiescence: GOAWAY delivered and every handed-out request ended => accept() has returned Ok(None); accept() never returns Ok(None) while a handler still holds a request handle. states = distinct (transport, progress) fingerprints; non-trivial = cases with at least one request.",
+        "0..{n} requests, each ending in one of {{normal finish, resolver dropped before resolve_request, FIN before HEADERS, RESET before HEADERS, RESET after HEADERS, malformed headers, oversized headers, split into halves dropped send-first / recv-first, handler still running}} (all {}^k assignments), the peer's GOAWAY injected before each request and after the last, requests arriving in ascending and in descending stream-ID order, the GOAWAY sent once or twice with the same identifier, every execution with <= {bound} scheduling deviations among the accept loop, the handler tasks and the script. Oracle at quiescence: GOAWAY delivered and every handed-out request ended => accept() has returned Ok(None); accept() never returns Ok(None) while a handler still holds a request handle. states = distinct (transport, progress) fingerprints; non-trivial = cases with at least one request.",
         ENDS.len()
     );
     rep.assumptions = vec!["liveness is decided at quiescence of the closed world (no timers, nothing in flight), where 'still pending' means 'pending forever'".into()];
@@ -292,9 +375,12 @@ pub fn run(args: &Args) -> i32 {
     }
     for c in combos {
         for g in 0..=c.len() {
-            cases.push(Case { ends: c.clone(), goaway_at: g, reversed: false });
+            cases.push(Case { ends: c.clone(), goaway_at: g, reversed: false, goaway_twice: false });
             if c.len() >= 2 {
-                cases.push(Case { ends: c.clone(), goaway_at: g, reversed: true });
+                cases.push(Case { ends: c.clone(), goaway_at: g, reversed: true, goaway_twice: false });
+            }
+            if c.len() <= 2 {
+                cases.push(Case { ends: c.clone(), goaway_at: g, reversed: false, goaway_twice: true });
             }
         }
     }
@@ -327,12 +413,27 @@ pub fn run(args: &Args) -> i32 {
         if !case.ends.is_empty() {
             acc.nontrivial.insert(explore::fnv_str(&format!("{case:?}")));
         }
-        viol.drain_into(acc, |choices| json!({"ends": case.ends.iter().map(|e| format!("{e:?}")).collect::<Vec<_>>(), "goaway_at": case.goaway_at, "reversed": case.reversed, "choices": choices, "seed": seed}));
+        viol.drain_into(acc, |choices| json!({"ends": case.ends.iter().map(|e| format!("{e:?}")).collect::<Vec<_>>(), "goaway_at": case.goaway_at, "reversed": case.reversed, "goaway_twice": case.goaway_twice, "choices": choices, "seed": seed}));
     });
     let mut total = Acc::new();
     for a in accs {
         total.merge(a);
     }
+    // burst scenarios
+    for n in if thorough { vec![64usize, 129, 200, 1000] } else { vec![129usize, 200] } {
+        total.evaluations += 1;
+        let (accepts, pending, started, panics) = burst_run(n);
+        let ok = started == n && accepts == ["none"] && !pending && panics.is_empty();
+        if !ok {
+            total.violation(
+                format!("C09:burst:accept-never-ends"),
+                format!("{n} requests handed out and held, peer GOAWAY, then all {n} dropped in one burst: accept() results {accepts:?}, still pending {pending}, handed out {started}, panics {panics:?}"),
+                (0, n),
+                || json!({"kind":"burst","n":n}),
+            );
+        }
+    }
+    total.count("burst_scenarios", if thorough { 4 } else { 2 });
     total.count("cases", cases.len() as u64);
     for i in [1, cases.len() / 2, cases.len() - 1] {
         total.samples.push(json!(format!("{:?}", cases[i])));
@@ -341,10 +442,22 @@ pub fn run(args: &Args) -> i32 {
 }
 
 pub fn replay(r: &Value) -> i32 {
+    if r["kind"] == "burst" {
+        let n = r["n"].as_u64().unwrap() as usize;
+        let (accepts, pending, started, panics) = burst_run(n);
+        println!("burst of {n}: accept() results {accepts:?}, still pending {pending}, handed out {started}, panics {panics:?}");
+        if started == n && accepts == ["none"] && !pending && panics.is_empty() {
+            println!("observed: no violation");
+            return 0;
+        }
+        println!("observed: C09:burst:accept-never-ends: accept() results {accepts:?}, still pending {pending}");
+        return 1;
+    }
     let case = Case {
         ends: r["ends"].as_array().unwrap().iter().map(|s| *ENDS.iter().find(|e| format!("{e:?}") == s.as_str().unwrap()).unwrap()).collect(),
         goaway_at: r["goaway_at"].as_u64().unwrap() as usize,
         reversed: r["reversed"].as_bool().unwrap_or(false),
+        goaway_twice: r["goaway_twice"].as_bool().unwrap_or(false),
     };
     let seed = r["seed"].as_u64().unwrap_or(0);
     let choices: Vec<u32> = r["choices"].as_array().unwrap().iter().map(|v| v.as_u64().unwrap() as u32).collect();
